@@ -905,7 +905,7 @@ func judgeC04(c c04Case) (v core.Verdict) {
 
 func TestC04(t *testing.T) {
 	core.Run(t, "C04",
-		"typed expression trees (depth<=5) over numeric/string/bool literals and Execute variables of every Go int/uint/float kind plus string and bool, unsigned values beyond MaxInt64 on the right of floating-point operands; minimal + random redundant parentheses; every operator spaced on both sides or neither; && || ?: operands wrapped in logging probes; non-trivial = >=2 operators with two different precedence levels adjacent without parentheses or a no-space operator, or a probe inside a branch the lazy operators must skip; shapes whose meaning the statement leaves open are discarded and counted",
+		"typed expression trees (depth<=5) over numeric (also character constants)/string/bool literals and Execute variables of every Go int/uint/float kind plus string and bool, unsigned values beyond MaxInt64 on the right of floating-point operands, the same operand on both sides of == / != (also a NaN), context as a map or as a pointer to a struct; minimal + random redundant parentheses; every operator spaced on both sides or neither; && || ?: operands wrapped in logging probes; non-trivial = >=2 operators with two different precedence levels adjacent without parentheses or a no-space operator, or a probe inside a branch the lazy operators must skip; shapes whose meaning the statement leaves open are discarded and counted",
 		genC04, judgeC04)
 }
 
